@@ -26,6 +26,12 @@ func newTensor(dt, order string, sh []int) *tensor.Dense {
 		return tensor.New(tensor.WithShape(sh...), tensor.WithBacking(b), tensor.AsFortran(nil))
 	case "cmb":
 		return tensor.New(tensor.WithShape(sh...), tensor.AsFortran(b))
+	case "cmf": // the order option FIRST: the shape is installed on an already column-major tensor
+		return tensor.New(tensor.AsFortran(nil), tensor.WithShape(sh...), tensor.WithBacking(b))
+	case "cmg": // order, backing, shape
+		return tensor.New(tensor.AsFortran(nil), tensor.WithBacking(b), tensor.WithShape(sh...))
+	case "cmn": // NewDense with the shape as an argument
+		return tensor.NewDense(dtypeOf(dt), tensor.Shape(sh).Clone(), tensor.WithBacking(b), tensor.AsFortran(nil))
 	}
 	panic("bad order")
 }
@@ -161,7 +167,11 @@ func genC01(tier string, r *rng, emit func(string)) {
 			if tier != "thorough" && (si+di)%len(dts) != 0 && len(sh) > 2 {
 				continue
 			}
-			for _, order := range []string{"rm", "cm", "cmb"} {
+			orders := []string{"rm", "cm", "cmb"}
+			if di == 0 {
+				orders = append(orders, "cmf", "cmg", "cmn") // other ways of declaring the same column-major tensor
+			}
+			for _, order := range orders {
 				for _, co := range box {
 					emit(fmt.Sprintf("at %s %s %s %s", dt, order, fints(sh), fints(co)))
 					emit(fmt.Sprintf("setat %s %s %s %s", dt, order, fints(sh), fints(co)))
